@@ -37,6 +37,7 @@ class Live:
         self.p = subprocess.Popen([exe], stdin=subprocess.PIPE, stdout=subprocess.PIPE, stderr=subprocess.PIPE, text=True, bufsize=1, env=env, errors="replace")
         self.M = self.p.stdout.readline().split()[1]
         self.script = []
+        self.out = []
 
     def send(self, op):
         self.script.append(op)
@@ -56,6 +57,7 @@ class Live:
                 if not l:
                     raise Crash(self.diagnose())
                 lines.append(l.rstrip("\n"))
+        self.out.append(lines)
         return lines
 
     def diagnose(self):
@@ -347,7 +349,7 @@ def run_history(args):
         crash = str(e)
     finally:
         H.L.close()
-    return dict(cid=cid, script=H.L.script, events=H.events, crash=crash, kinds=H.kinds_used, M=H.L.M)
+    return dict(cid=cid, script=H.L.script, out=H.L.out, events=H.events, crash=crash, kinds=H.kinds_used, M=H.L.M)
 
 
 def crossed_bounds(ulp):
@@ -357,6 +359,67 @@ def crossed_bounds(ulp):
         if t and t[0] == "UC" and t[3] not in ("-inf", "inf") and t[4] not in ("-inf", "inf") and F(t[3]) > F(t[4]):
             return True
     return False
+
+
+def api_model_script(r):
+    """the h0-part of a live session as a script for the Api model: solves carry the library's answer as the oracle,
+    QSexact_solver's effect on the state is adopted (SYNC), `ACCESS h0` becomes `STATE h0`.  Returns (lines, [C state dicts])"""
+    sc, out = r["script"], r["out"]
+    lines, cstates, flags = [], [], []
+    bases = {}
+    factor_unknown = False
+    n = min(len(sc), len(out))
+    for i in range(n):
+        op = sc[i]
+        t = op.split()
+        if len(t) >= 2 and t[1] in ("h1", "h2"):
+            continue
+        if t[0] in ("DUMP", "DUMPI") or (t[0] == "Q" and t[2] != "state"):
+            continue
+        nxt = parse_access(out[i + 1]) if i + 1 < n and sc[i + 1] == "ACCESS h0" else None
+        if t[0] == "ACCESS":
+            a = parse_access(out[i])
+            if "state" in a:
+                lines.append("STATE h0")
+                cstates.append(a["state"])
+                flags.append(factor_unknown)
+            continue
+        if t[0] == "SOLVE":
+            ok = out[i][0].split()[2] == "OK"
+            if not ok or nxt is None or "state" not in nxt:
+                return lines, cstates, flags          # stop the correspondence at a failing solve
+            stt = out[i][0].split()[4]
+            b = nxt.get("basis", ("-", "-"))
+            pi = nxt["pi"][1] if nxt.get("pi", (1,))[0] == 0 else []
+            if t[2] in ("PRIMAL", "DUAL"):
+                lines.append("SOLVE h0 %s ORACLE %s %s %s PI %s" % (t[2], stt, b[0], b[1], " ".join(pi)))
+            else:
+                s_ = nxt["state"]
+                has_b = s_.get("basis", "-") != "-"
+                lines.append("SYNC h0 %s %s %s %s %s PI %s" % (s_["qstatus"], s_["factorok"], s_["cache"], b[0] if has_b else "none", b[1], " ".join(pi)))
+            factor_unknown = False
+            continue
+        if t[0] == "GETBASIS":
+            o = out[i][0].split()
+            if o[2] == "OK":
+                bases[t[2]] = (o[4], o[5])
+            continue
+        if t[0] == "LOADBASIS":
+            if t[2] in bases and out[i][0].split()[2] == "OK":
+                lines.append("MLOADBASIS h0 %s %s" % bases[t[2]])
+            elif out[i][0].split()[2] == "OK":
+                return lines, cstates, flags
+            continue
+        if t[0] in ("LOADBASISARR",):
+            if out[i][0].split()[2] == "OK":
+                lines.append("MLOADBASIS h0 %s %s" % (t[2], t[3]))
+            continue
+        if t[0] in ("ADDROW", "ADDRROW", "ADDROWS", "ADDRROWS"):
+            factor_unknown = True       # depends on stored dual norms (not modelled)
+        elif t[0] in ("NEWROW", "DELROW", "DELROWS", "DELCOL", "DELCOLS", "CHGCOEF", "CHGSENSE", "CHGSENSES", "CHGRANGE"):
+            factor_unknown = False
+        lines.append(op)
+    return lines, cstates, flags
 
 
 def zvec(a):
@@ -413,6 +476,36 @@ def main():
         raise Fail("drv_store KKTU failed: " + r_.stderr[-1000:])
     kans = {t[1]: t[2:] for t in (l.split() for l in r_.stdout.splitlines()) if len(t) >= 3 and t[0] == "A"}
     tans = run_model("drv_solve", "\n".join(tq) + "\n")
+    # ---- correspondence Api model <-> library state (qstatus, cache presence and sizes, basis presence and sizes, factorok)
+    api_cases, api_meta = [], {}
+    for r in results:
+        lines, cstates, flags = api_model_script(r)
+        if cstates:
+            api_cases.append("CASE %s\n" % r["cid"] + "\n".join(lines) + "\n")
+            api_meta[r["cid"]] = (lines, cstates, flags, r)
+    mout = run_m("".join(api_cases), M)
+    _, mrec = records(mout)
+    api_stats = dict(histories=0, states_compared=0, mismatches=0, factorok_skipped=0)
+    for cid, (lines, cstates, flags, r) in api_meta.items():
+        got = [dict(kv.split("=", 1) for kv in rec[0][4:]) for rec in mrec.get(cid, []) if rec[0][:2] == ["R", "STATE"] and rec[0][2] == "OK"]
+        api_stats["histories"] += 1
+        for k_, (cs_, ms_, fu) in enumerate(zip(cstates, got, flags)):
+            api_stats["states_compared"] += 1
+            keys = ["qstatus", "cache", "cache_dims", "basis"] + ([] if fu else ["factorok"])
+            if fu:
+                api_stats["factorok_skipped"] += 1
+            cview = {k2: cs_.get(k2) for k2 in keys}
+            mview = {k2: ms_.get(k2) for k2 in keys}
+            if cview != mview:
+                api_stats["mismatches"] += 1
+                nstate = [i for i, l in enumerate(lines) if l == "STATE h0"][k_]
+                ck.violation("corr_api_%s.txt" % cid, "\n".join(r["script"]) + "\n# model script:\n# " + "\n# ".join(lines[:nstate + 1]) + "\n# library: %s\n# model:   %s\n" % (cview, mview),
+                             "correspondence Store.Api vs library state broke after `%s`: library %s, model %s" % (lines[nstate - 1][:60], cview, mview),
+                             no_input=True, match=dict(kind="corr-api", op=lines[nstate - 1].split()[0]))
+                break
+        if len(got) < len(cstates):
+            pass
+    ck.cov["corr_api"] = api_stats
     # ---- judging
     st = dict(solves=0, solves_optimal_judged=0, edits=0, accessor_answers_between=0, ref_mismatch=0, excluded_dual_unbounded=0, nondefinitive=0,
               status_hist={}, ref_not_certified=0, toint_checked=0)
